@@ -1,4 +1,5 @@
 import QbeeModel.Lemmas.ExprC
+import QbeeModel.Lemmas.StmtDepth
 /-
   C03  Accepted programs are type- and stack-safe on the virtual machine.  Property theorems only.
 -/
@@ -99,3 +100,21 @@ example : compileE (.bin 1 (.atom .i) (.atom .d)) = some [2000, 8, 2003, 2] := b
 
 
 end Qbee.ExprC
+
+namespace Qbee.StmtDepth
+
+/-- "at every statement boundary the operand stack is back at the depth it had when the routine was entered plus one entry
+    per active GOSUB": the depth the machine's bookkeeping (Model/StmtDepth.lean) cuts the stack back to when an error is
+    handled is that depth, for a frame whose GOSUB return addresses lie directly on the routine's own -/
+theorem statement_boundary_depth (f : Frame) (n : Nat) (h : f.marks = consec f.base n) : stmtDepth f = f.base + 1 + n :=
+  stmtDepth_consec f n h
+
+/-- the error-handling path keeps that depth: a handled error never leaves more on the stack than a statement boundary has -/
+theorem handled_error_reaches_boundary_depth (s : St) (f : Frame) (rest : List Frame) (hf : s.frames = f :: rest) :
+    (step s .handledNext).depth ≤ stmtDepth f := by
+  simp only [step, hf]
+  exact Nat.min_le_right _ _
+
+example : stmtDepth { base := 3, marks := consec 3 2 } = 6 := by decide
+
+end Qbee.StmtDepth
